@@ -45,6 +45,7 @@ class ProbeResult:
         self.results = {}   # build index -> list of ints
         self.hashes = {}    # build index -> hash string
         self.excs = {}      # build index -> message
+        self.argcheck = {}  # build index -> 1 if a call without arguments was rejected
         for ln in out.split("\n"):
             p = ln.split(" ")
             if p[0] == "RESULT":
@@ -56,6 +57,8 @@ class ProbeResult:
                         vals.append(int(t))
                 self.results[int(p[1])] = vals
                 self.hashes[int(p[1])] = h
+            elif p[0] == "ARGCHECK":
+                self.argcheck[int(p[1])] = int(p[2])
             elif p[0] == "HASH":
                 self.hashes[int(p[1])] = p[2]
             elif p[0] == "EXC":
